@@ -985,15 +985,10 @@ func (e *Engine) findIndicesDigitPrefilter(haystack []byte) (int, int, bool) {
 			}
 		}
 
-		pos = digitPos + 1
 		// When the leading digit class is greedy unbounded (\d+, \d*), all
 		// positions in the same digit run reach the same DFA state after
 		// consuming digits, so they all fail identically. Skip the entire run.
-		if e.digitRunSkipSafe {
-			for pos < len(haystack) && haystack[pos] >= '0' && haystack[pos] <= '9' {
-				pos++
-			}
-		}
+		pos = e.skipDigitRun(haystack, digitPos)
 	}
 
 	return -1, -1, false
@@ -1034,12 +1029,7 @@ func (e *Engine) findIndicesDigitPrefilterAt(haystack []byte, at int) (int, int,
 			}
 		}
 
-		pos = digitPos + 1
-		if e.digitRunSkipSafe {
-			for pos < len(haystack) && haystack[pos] >= '0' && haystack[pos] <= '9' {
-				pos++
-			}
-		}
+		pos = e.skipDigitRun(haystack, digitPos)
 	}
 
 	return -1, -1, false
@@ -1076,12 +1066,7 @@ func (e *Engine) findIndicesDigitPrefilterAtWithState(haystack []byte, at int, s
 			}
 		}
 
-		pos = digitPos + 1
-		if e.digitRunSkipSafe {
-			for pos < len(haystack) && haystack[pos] >= '0' && haystack[pos] <= '9' {
-				pos++
-			}
-		}
+		pos = e.skipDigitRun(haystack, digitPos)
 	}
 
 	return -1, -1, false
